@@ -22,21 +22,25 @@ Fixpoint bytes_eqb (a b : bytes) : bool :=
   end.
 Definition all_zero (b : bytes) : bool := forallb (N.eqb 0) b.
 
-(* ---- the defects recorded for this property (true = behave as the code does today) ---- *)
+(* ---- the defects recorded for this property (true = behave as the code did before the named fix;
+        only f_restore is still open at /repo ce9ad2f) ---- *)
 Record flags := mkflags {
   f_auth   : bool;  (* LCP acknowledges CHAP with any (or no) algorithm byte               (fixed 54fb851) *)
   f_adopt  : bool;  (* onIPCPUp overwrites the session address even with a nil peer address
-                       (PPPoE: fixed 95b0af2; LNS: as found)                                              *)
+                       (PPPoE: fixed 95b0af2; LNS: fixed ce9ad2f)                                              *)
   f_aaa    : bool;  (* an unusable AAA IPv4 address (0.0.0.0, IPv6 literal) is kept by the session
-                       (PPPoE: fixed bc32486; LNS: as found)                                              *)
+                       (PPPoE: fixed bc32486; LNS: fixed ce9ad2f)                                              *)
   f_keep   : bool;  (* SetPeerAddress keeps the peer.Address negotiated under the old assignment
                        (fixed 95b0af2)                                                                    *)
-  f_always : bool   (* startNCP starts IPCP even when the session owns no usable address (LNS as found;
+  f_always : bool;  (* startNCP starts IPCP even when the session owns no usable address (LNS before ce9ad2f;
                        PPPoE starts it only with a usable address since 24c9504)                          *)
+  f_restore : bool  (* installInMemoryState restores IPCP to Opened without SetPeerAddress: the restored
+                       session's IPCP has nothing assigned                                                *)
 }.
-Definition repaired  : flags := mkflags false false false false false.
-Definition defective : flags := mkflags true true true true false.
-Definition lns_found : flags := mkflags false true true false true.
+Definition repaired  : flags := mkflags false false false false false false.
+Definition defective : flags := mkflags true true true true false false.     (* pkg/ppp + PPPoE before the fixes *)
+Definition lns_found : flags := mkflags false true true false true false.     (* LNS before ce9ad2f *)
+Definition def_restore : flags := mkflags false false false false false true.
 
 (* ---- net.IP ---- *)
 Definition v4prefix : bytes := [0;0;0;0;0;0;0;0;0;0;255;255]%N.
@@ -325,7 +329,7 @@ Definition build_confreq (c : ipcp_cfg) : list opt :=
    subscriber's Ack/Nak of our own request, configuration set by the owner) is state of the object. *)
 
 (* SetPeerAddress.  Repaired: the address negotiated under the previous assignment is forgotten, so that a
-   stale peer.Address can never be adopted; as found: peer.Address survives. *)
+   stale peer.Address can never be adopted; before 95b0af2 (f_keep): peer.Address survives. *)
 Definition ipcp_set_peer (fl : flags) (c : ipcp_cfg) (p : ipcp_peer) (a : option bytes) : ipcp_cfg * ipcp_peer :=
   (mkicfg (to4o a) (ic_dns1 c) (ic_dns2 c) (ic_local c) (ic_rejected c),
    if f_keep fl then p else mkipeer None (pp_dns1 p) (pp_dns2 p)).
@@ -501,7 +505,7 @@ Record oracle := mkorc {
      default DNS 8.8.8.8 / 8.8.4.4; only with a usable address: SetPeerAddress, SetDNS, Up, Open; otherwise
      the session address is cleared and the IPCP object is left alone.
    LNS (lns_lifecycle.go:373): no address -> allocateIPv4; SetPeerAddress only when there is an address; DNS
-     only from profile / AAA (none here); as found Up, Open always; repaired like PPPoE. *)
+     only from profile / AAA (none here); IPCP only with a usable address (ce9ad2f; before: always, f_always). *)
 Definition dns_default1 : bytes := (v4prefix ++ [8;8;8;8])%N.
 Definition dns_default2 : bytes := (v4prefix ++ [8;8;4;4])%N.
 Definition start_ncp (fl : flags) (ow : owner) (c : ipcp_cfg) (st : N) (p : ipcp_peer) (addr : option bytes)
@@ -528,6 +532,14 @@ Definition start_ncp (fl : flags) (ow : owner) (c : ipcp_cfg) (st : N) (p : ipcp
 
 Definition sess_start (fl : flags) (ow : owner) (aaa : option bytes) (orc : oracle) : sess :=
   fst (start_ncp fl ow (mk_ipcp_cfg None None) 0 ipeer0 (extract_ip fl aaa) false [] orc).
+
+(* installInMemoryState (internal/pppoe/component.go) for a checkpointed session in PhaseOpen with an IPv4
+   address: initPPP (fresh IPCP object), FSM.Restore (straight to Opened, nothing sent), ipcpOpen = true.
+   Repaired: the checkpointed address is installed as the assignment first (SetPeerAddress, SetDNS). *)
+Definition sess_restore (fl : flags) (addr : bytes) (dns1 dns2 : option bytes) : sess :=
+  let c := if f_restore fl then mk_ipcp_cfg None None
+           else mk_ipcp_cfg (Some addr) (Some (dns1, dns2)) in
+  mksess PPPoE c 9 ipeer0 (Some addr) true [].
 
 (* callbacks LayerUp = onIPCPUp, LayerDown = onIPCPDown *)
 Definition on_act (fl : flags) (p : ipcp_peer) (st : option bytes * bool) (a : act) : option bytes * bool :=
@@ -650,3 +662,10 @@ Definition v6sess_step (s : v6sess) (e : v6ev) : v6sess * list act :=
   end.
 Fixpoint v6sess_run (s : v6sess) (es : list v6ev) : v6sess :=
   match es with [] => s | e :: rest => v6sess_run (fst (v6sess_step s e)) rest end.
+
+(* IPv6CPConfigFromMAC *)
+Definition iid_from_mac (mac : bytes) : bytes :=
+  match mac with
+  | [m0; m1; m2; m3; m4; m5] => [N.lxor m0 2; m1; m2; 255; 254; m3; m4; m5]%N
+  | _ => [0;0;0;0;0;0;0;0]%N
+  end.
